@@ -168,6 +168,10 @@ func Generate(prop string, r *sim.Rand, tier string) *sim.Plan {
 	case "C07", "C02", "C03", "C17", "C09", "C12", "C10":
 		cfg.Twin = true
 	}
+	if prop == "C04" && r.Chance(0.4) {
+		// this node as the source hub of transactions towards another BitXHub
+		cfg.Relay = []int{1, 3, 4, 7}[r.Intn(4)]
+	}
 	if prop == "C03" || ((prop == "C01" || prop == "C07") && r.Chance(0.3)) || (prop == "C08" && r.Chance(0.5)) {
 		for i := 0; i < cfg.Chains; i++ {
 			cfg.Rules = append(cfg.Rules, []string{"happy", "bit", "bit", "fabsim"}[r.Intn(4)])
@@ -572,6 +576,19 @@ func (g *gen) step(prop string) []CStep {
 			default:
 				return []CStep{CStep{Op: "grecv", Group: r.Intn(3), N: r.Intn(4), Kind: []string{"ok", "ok", "fail", "rollback"}[r.Intn(4)]}}
 			}
+		}
+		if prop == "C04" && g.cfg.Relay > 0 && r.Chance(0.35) {
+			st := CStep{Op: "xhub", Pair: r.Intn(8), A: r.Intn(2), Idx: []string{"next", "next", "next", "next", "dup", "old", "skip"}[r.Intn(7)], T: []int64{0, 0, 0, 2, 3}[r.Intn(5)]}
+			st.Kind = []string{"req", "req", "req", "ok", "ok", "fail", "rollback", "nfail", "nrollback", "nrollback"}[r.Intn(10)]
+			if r.Chance(0.15) {
+				for i := 0; i < r.Intn(3); i++ {
+					st.Signers = append(st.Signers, r.Intn(g.cfg.Relay+1))
+				}
+				if len(st.Signers) == 0 {
+					st.Signers = []int{100}
+				}
+			}
+			return []CStep{st}
 		}
 		wd := []int{10, 3, 5, 1, 1, 1, 2}
 		if g.cfg.BigBlocks {
